@@ -124,13 +124,13 @@ theorem C14_index_preserved {α β : Type} [DecidableEq α] [DecidableEq β] (L 
     each destination type keeps the index (`nth_channel_view` merges alternatives: see the notes) -/
 theorem C14_index_preserved_L7 :
     ∀ f ∈ [Xf.id, .flipUD, .flipLR, .transpose, .rot90cw, .rot90ccw, .rot180, .sub 0 0 1 1, .subs 1 1,
-            .cc g8 .default, .cc rgb8 .default, .cc bgr8 .default, .cc rgb16 .default, .cc rgb8 .sum],
+            .cc g8 .default, .cc rgb8 .default, .cc bgr8 .default, .cc rgb16 .default, .cc rgb8 (.sum 7)],
     ∀ fmt ∈ L7, indexOf (f.tag (Tag.ofFmt fmt)) (L7.map (fun g => f.tag (Tag.ofFmt g))) = indexOf fmt L7 := by
   decide
 
 /-- the same on the second representative list (16-bit gray, argb, rgba, cmyk, rgb16 interleaved and planar) -/
 theorem C14_index_preserved_LB :
-    ∀ f ∈ [Xf.id, .flipUD, .flipLR, .transpose, .rot90cw, .rot90ccw, .rot180, .sub 0 0 1 1, .subs 1 1, .cc rgb8 .sum],
+    ∀ f ∈ [Xf.id, .flipUD, .flipLR, .transpose, .rot90cw, .rot90ccw, .rot180, .sub 0 0 1 1, .subs 1 1, .cc rgb8 (.sum 7)],
     ∀ fmt ∈ LB, indexOf (f.tag (Tag.ofFmt fmt)) (LB.map (fun g => f.tag (Tag.ofFmt g))) = indexOf fmt LB := by
   decide
 
@@ -210,6 +210,19 @@ theorem C14_copy_and_convert {t1 t2 : Tag} (c : Conv) (s : View t1) (d : View t2
   · by_cases h : compatible t1.fmt t2.fmt = true <;> simp [anyCopyAndConvert, wrap, h]
   · intro h; simp [anyCopyAndConvert, wrap, h]
   · intro h; simp [anyCopyAndConvert, wrap, h]
+
+/-- the converter OBJECT the caller passes is the one applied: the converting copy depends on the converter's
+    run-time state (an overload that used a default-constructed converter would store other values) -/
+theorem C14_converter_state_matters :
+    convSum 1 g8 [1, 2, 3] ≠ convSum 0 g8 [1, 2, 3] ∧
+    ∀ (off : Nat) (df : Fmt) (p : List Nat), (convSum off df p).length = df.nc := by
+  refine ⟨by decide, fun off df p => by simp [convSum]⟩
+
+/-- bad_cast does not depend on the dimensions: incompatible alternatives of any two sizes throw, and the memory
+    is unchanged (the equal-dimensions precondition of the concrete algorithm is only reached after the dispatch) -/
+theorem C14_incompatible_any_dims (a b : AnyView) (m : Mem) (h : compatible a.1.fmt b.1.fmt = false) :
+    anyEqualPixels a b m = (.error .badCast, m) ∧ anyCopyPixels a b m = (.error .badCast, m) := by
+  simp [anyEqualPixels, anyCopyPixels, binaryOp, h]
 
 /-- fill_pixels on a run-time typed view: concrete fill for a compatible value, else bad_cast and nothing changes -/
 theorem C14_fill_dispatch {t : Tag} (v : View t) (pf : Fmt) (p : List Nat) (m : Mem) :
